@@ -369,22 +369,28 @@ fn impl_fns(imp: &ItemImpl) -> impl Iterator<Item = &ImplItemFn> {
 struct BlockRec {
     name: String,
     cfg: Value,
-    /// (root, methods, read_all) once the impl has been seen.
-    body: Option<(bool, Vec<Value>, Vec<Value>)>,
+    /// (root, methods, read_all, read_all of the async twin) once the impl has been seen.
+    body: Option<(bool, Vec<Value>, Vec<Value>, Vec<Value>)>,
 }
 
 impl BlockRec {
     fn finish(self) -> Res<Value> {
-        let (root, methods, read_all) = self
+        let (root, methods, read_all, read_all_async) = self
             .body
             .ok_or_else(|| format!("block `{}`: no inherent impl found", self.name))?;
-        Ok(json!({
+        let mut v = json!({
             "name": self.name,
             "root": root,
             "cfg": self.cfg,
             "methods": methods,
             "read_all": read_all,
-        }))
+        });
+        // `read_all_registers_async` is read with the same reader (`.await` is peeled off like `?`); the model has one
+        // list, so the twin's list is reported only where it is not the blocking one's
+        if read_all_async != read_all {
+            v["read_all_async"] = Value::Array(read_all_async);
+        }
+        Ok(v)
     }
 }
 
@@ -434,10 +440,10 @@ fn top_level_impl(imp: &ItemImpl, blocks: &mut [BlockRec], enums: &mut [EnumRec]
     }
 }
 
-fn block_impl(imp: &ItemImpl, block_name: &str) -> Res<(bool, Vec<Value>, Vec<Value>)> {
+fn block_impl(imp: &ItemImpl, block_name: &str) -> Res<(bool, Vec<Value>, Vec<Value>, Vec<Value>)> {
     let mut root: Option<bool> = None;
     let mut seen_interface = false;
-    let mut seen_async = false;
+    let mut read_all_async: Option<Vec<Value>> = None;
     let mut read_all: Option<Vec<Value>> = None;
     let mut methods = Vec::new();
 
@@ -453,7 +459,11 @@ fn block_impl(imp: &ItemImpl, block_name: &str) -> Res<(bool, Vec<Value>, Vec<Va
                     read_all_body(&f.block).map_err(|e| format!("block `{block_name}`: read_all_registers: {e}"))?,
                 );
             }
-            "read_all_registers_async" => seen_async = true,
+            "read_all_registers_async" => {
+                read_all_async = Some(
+                    read_all_body(&f.block).map_err(|e| format!("block `{block_name}`: read_all_registers_async: {e}"))?,
+                );
+            }
             _ => {
                 methods.push(block_method(f).map_err(|e| format!("block `{block_name}`: method `{fname}`: {e}"))?);
             }
@@ -464,11 +474,10 @@ fn block_impl(imp: &ItemImpl, block_name: &str) -> Res<(bool, Vec<Value>, Vec<Va
     if !seen_interface {
         return Err(format!("block `{block_name}`: no `fn interface` in impl"));
     }
-    if !seen_async {
-        return Err(format!("block `{block_name}`: no `fn read_all_registers_async` in impl"));
-    }
+    let read_all_async =
+        read_all_async.ok_or_else(|| format!("block `{block_name}`: no `fn read_all_registers_async` in impl"))?;
     let read_all = read_all.ok_or_else(|| format!("block `{block_name}`: no `fn read_all_registers` in impl"))?;
-    Ok((root, methods, read_all))
+    Ok((root, methods, read_all, read_all_async))
 }
 
 /// One signed term of an additive chain.
